@@ -1,0 +1,11 @@
+//go:build verif
+
+package elf
+
+import "mltwist/pkg/model"
+
+// VerifNewBlockSemu exposes newBlock to the verification harness.
+func VerifNewBlockSemu(a model.Addr, b []byte) Block { return newBlock(a, b) }
+
+// VerifNewMemorySemu exposes newMemory to the verification harness.
+func VerifNewMemorySemu(bs []Block) (*Memory, error) { return newMemory(bs) }
